@@ -125,49 +125,130 @@ def run(F, chk):
     check_marker(F, G4, sf)
 
 
-def check_selection_closures(F, body, G6):
-    """closures given to Iterator::filter over the filters slice: `f.enabled && f.kind == K`"""
-    kinds = []
-    for cl in F.closures_of(body.path):
-        ats = cl.arg_types()
-        if not any(FILTER in t for t in ats):
+ALL_KINDS = frozenset(['Positive', 'Negative', 'Marker', 'Event'])
+
+
+def closure_predicate(F, cl):
+    """(requires_enabled, admitted kinds) of a tiny selection closure over a filter reference, or None if not recognised.
+    Recognised shapes: f.enabled / f.kind == K / f.kind != K / f.enabled && f.kind (==|!=) K."""
+    cfg = CFG(cl)
+    E = ExprBuilder(cfg)
+    en_switch = None
+    rets = []
+    for b in cl.blocks:
+        if b.cleanup:
             continue
-        cfg = CFG(cl)
-        E = ExprBuilder(cfg)
-        fields = set()
-        consts = set()
-        for b in cl.blocks:
-            if b.cleanup:
-                continue
-            exprs = [E.rvalue(s.rv) for s in b.stmts if s.k == 'assign']
-            if b.term.k == 'call':
-                exprs += [E.operand(a) for a in b.term.args]
-            for e in exprs:
-                for x in walk(e):
-                    if isinstance(x, tuple) and x[0] == 'place':
-                        for p in x[2:]:
-                            if p.startswith('.'):
-                                fields.add(p[1:])
-                    if isinstance(x, tuple) and x[0] == 'agg' and 'FilterKind::' in x[1]:
-                        consts.add(x[1].split('::')[-1])
-        reads_match = any(b.term.k == 'call' and b.term.callee.path.endswith('Filter::matches') for b in cl.blocks)
-        if reads_match:
-            continue  # the any(|f| f.matches(msg)) closures
-        G6.fn(cl.path)
-        # enabled must be tested first: a switch on .enabled dominating the kind comparison
-        en_first = False
-        for b in cl.blocks:
-            if b.term.k == 'switch' and 'enabled' in show(E.switch_cond(b)):
-                en_first = True
-        if fields >= {'enabled', 'kind'} and en_first and len(consts) == 1:
-            kinds.append(next(iter(consts)))
-            G6.ok(sample={'closure': cl.path, 'fields_read': sorted(fields), 'kind_constant': sorted(consts)})
+        if b.term.k == 'switch':
+            c = show(E.switch_cond(b))
+            if c.endswith('.enabled'):
+                en_switch = b
+            else:
+                return None
+        for s in b.stmts:
+            if s.k == 'assign' and s.place.is_local and s.place.l == 0:
+                rets.append((b, E.rvalue(s.rv)))
+        if b.term.k == 'call' and b.term.dest.is_local and b.term.dest.l == 0:
+            rets.append((b, ('call', b.term.callee.path, tuple(E.operand(a) for a in b.term.args))))
+    req_en = False
+    kinds = ALL_KINDS
+    seen_kind = False
+    for (b, e) in rets:
+        if e == ('const', 0):
+            # must be the false edge of the enabled switch
+            if en_switch is None:
+                return None
+            req_en = True
+            continue
+        if isinstance(e, tuple) and e[0] == 'place' and show(e).endswith('.enabled'):
+            req_en = True
+            continue
+        if isinstance(e, tuple) and e[0] == 'call' and (e[1].endswith('PartialEq::eq') or e[1].endswith('PartialEq::ne')):
+            txt = ' '.join(show(x) for x in e[2])
+            if '.kind' not in txt:
+                return None
+            ks = [k for k in ALL_KINDS if 'FilterKind::%s{' % k in txt]
+            if len(ks) != 1:
+                return None
+            seen_kind = True
+            kinds = frozenset(ks) if e[1].endswith('::eq') else ALL_KINDS - frozenset(ks)
+            continue
+        return None
+    if not rets:
+        return None
+    return (req_en, kinds)
+
+
+def chain_predicates(F, body, E, expr, out_index=None):
+    """walk an iterator chain expression backwards: returns (requires_enabled, kinds) admitted into the collection"""
+    req, kinds = False, ALL_KINDS
+    cur = expr
+    depth = 0
+    first = True
+    while isinstance(cur, tuple) and cur[0] == 'call' and depth < 8:
+        depth += 1
+        nm = cur[1]
+        args = cur[2]
+        if nm.endswith('Iterator::filter') or nm.endswith('Iterator::partition'):
+            clo = args[1] if len(args) > 1 else None
+            pred = None
+            if isinstance(clo, tuple) and clo[0] == 'agg':
+                cb = F.get(clo[1])
+                if cb is not None:
+                    pred = closure_predicate(F, cb)
+            if pred is None:
+                return None
+            pr, pk = pred
+            if nm.endswith('partition') and out_index == 1:
+                if pr:
+                    return None      # negation of (enabled && ..) admits disabled filters
+                pk = ALL_KINDS - pk
+                pr = False
+            req = req or pr
+            kinds = kinds & pk
+            cur = args[0]
+        elif nm.endswith('::iter') or nm.endswith('IntoIterator::into_iter') or nm.endswith('Iterator::collect') or nm.endswith('::copied') or nm.endswith('::by_ref'):
+            cur = args[0] if args else None
         else:
-            G6.violation(('selection', cl.path), 'selection closure reads %s and compares with %s (expected enabled && kind == <one kind>)' % (sorted(fields), sorted(consts)), where=cl.loc(None))
-    if sorted(kinds) != ['Negative', 'Positive']:
-        G6.violation(('selection-kinds', body.path, ','.join(sorted(kinds))), 'selection closures of %s select kinds %s (expected one Positive and one Negative)' % (body.path, sorted(kinds)), where=body.loc(None))
-    else:
-        G6.ok(sample={'function': body.path, 'selected_kinds': sorted(kinds)})
+            break
+    return (req, kinds)
+
+
+def check_selection_closures(F, body, G6):
+    """every collection of filters the stream filter consults admits exactly one kind (one Positive, one Negative
+    collection) and only enabled filters - derived from the filter/partition closures of the iterator chain"""
+    cfg = CFG(body)
+    E = ExprBuilder(cfg)
+    G6.fn(body.path)
+    found = []
+    for blk in body.calls():
+        t = blk.term
+        p = t.callee.path
+        if p.endswith('Iterator::collect') and FILTER in t.dest.t and 'Vec<' in t.dest.t:
+            chain = E.operand(t.args[0])
+            found.append((blk, chain_predicates(F, body, E, ('call', p, (chain,))), 'collect'))
+        if p.endswith('Iterator::partition') and FILTER in t.dest.t:
+            chain = ('call', p, tuple(E.operand(a) for a in t.args))
+            found.append((blk, chain_predicates(F, body, E, chain, 0), 'partition.0'))
+            found.append((blk, chain_predicates(F, body, E, chain, 1), 'partition.1'))
+    G6.sites += len(found)
+    got = []
+    for (blk, pred, how) in found:
+        if pred is None:
+            G6.violation(('selection-unrecognised', body.path, how), 'a filter collection built at %s (%s) uses a selection that is not of the form enabled && kind ==/!= K (or would admit disabled filters)' % (body.loc(blk.term.sp), how), where=body.loc(blk.term.sp))
+            continue
+        req, kinds = pred
+        got.append((req, tuple(sorted(kinds))))
+        if req and len(kinds) == 1:
+            G6.ok(sample={'collection_built_at': body.loc(blk.term.sp), 'via': how, 'admits_kinds': sorted(kinds), 'only_enabled': req})
+        else:
+            G6.violation(('selection', body.path, how, '+'.join(sorted(kinds)), 'enabled%s' % req),
+                         'the filter collection built at %s (%s) admits kinds %s (only enabled: %s): it must admit exactly one kind (Positive resp. Negative) and only enabled filters - marker/event/disabled filters would influence the selection' %
+                         (body.loc(blk.term.sp), how, sorted(kinds), req), where=body.loc(blk.term.sp))
+    want = sorted([(True, ('Negative',)), (True, ('Positive',))])
+    if sorted(got) == want:
+        G6.ok(sample={'function': body.path, 'collections': 'one Positive and one Negative, enabled only'})
+    elif all(r and len(k) == 1 for r, k in got) or not got:
+        G6.violation(('selection-kinds', body.path, ','.join('+'.join(k) for r, k in sorted(got))), 'the stream filter builds collections for kinds %s (expected exactly one Positive and one Negative)' % [k for r, k in sorted(got)], where=body.loc(None))
 
 
 def check_pushes(F, G3):
